@@ -42,7 +42,7 @@ fn run(input: RunInput) -> ScenFuture {
         let lossy = w.flag("lossy", 0.4);
         let e_online = w.flag("e_online", 0.7);
         let o_plain_ok = w.flag("o_dialed_plainly", 0.5);
-        let n_calls = w.param("calls", 1, 7) as usize;
+        let n_calls = w.param("calls", 1, if w.tier == Tier::Quick { 7 } else { 20 }) as usize;
         let spread_us = w.param("spread_us", 0, 60_000) as u64;
         let mut cfg = base_config(6_000, Some(1_500));
         cfg.connect_timeout_ms = Some(w.param("connect_timeout_ms", 800, 3_000) as u64);
